@@ -15,6 +15,12 @@ CONSTANTS
   DevRebuildDropsLast = FALSE
   DevCsumClearsLeaf = FALSE
   DevSbCsumRefuses = FALSE
+  InitExtStates = {"w"}
+  InvalidIds = {}
+  CfModes = {"plain"}
+  DevRebuildMergesAcrossState = FALSE
+  DevEncCheckIgnoresStrict = FALSE
+  DevDupFoldsPlainDir = FALSE
   DevInodeUninitWipes = TRUE
 INVARIANT TypeOK
 INVARIANT TreeUnchanged
